@@ -184,10 +184,30 @@ Theorem C33_map_nonmapping_refuted : exists sc t v, from_py sc t v = Err Attribu
 Proof. exact map_nonmapping_refuted. Qed.
 Print Assumptions C33_map_nonmapping_refuted.
 
+(* nested containers, by induction on the type structure: for every type of the grammar (scalars,
+   std::string, vector, std::list, set, unordered_set, map, unordered_map, pair, C array, struct,
+   ctuple, arbitrarily nested) and every well-formed C value (wf: ints in range, distinct set
+   elements / map keys, array extents, distinct member names), whatever to_py produces is
+   converted back by from_py to exactly that C value.  Unions are excluded (wf is False). *)
+Theorem C33_nested_roundtrip : forall sc,
+  (sc_type sc = SUnicode -> codec_law (sc_enc sc)) ->
+  forall t c v, wf sc t c -> to_py sc t c = Ok v -> from_py sc t v = Ok c.
+Proof. exact to_from. Qed.
+Print Assumptions C33_nested_roundtrip.
+
 (* non-vacuity: the element law holds for a concrete nested type and value *)
 Example C33_nonvacuous :
   let sc := {| sc_type := SBytes; sc_enc := ENone |} in
   let t := TMap (TLeaf LString) (TVector (TPair (TLeaf (LInt 32 true)) (TLeaf LDouble))) in
   let c := CMap [(CBytes [97; 0; 255]%N, CSeq [CSeq [CInt (-5); CDouble 7]]); (CBytes [], CSeq [])] in
-  exists v, to_py sc t c = Ok v /\ from_py sc t v = Ok c.
-Proof. eexists. split; vm_compute; reflexivity. Qed.
+  wf sc t c /\ exists v, to_py sc t c = Ok v /\ from_py sc t v = Ok c.
+Proof.
+  split.
+  - cbn. split; [reflexivity|]. eexists. split; [reflexivity|]. split.
+    + repeat constructor; cbn; intuition discriminate.
+    + split; repeat constructor; cbn; eauto.
+      eexists. split; [reflexivity|]. repeat constructor. cbn.
+      eexists _, _. split; [reflexivity|]. split; [|eauto]. eexists. split; [reflexivity|].
+      unfold in_range, min_int, max_int. cbn. split; discriminate.
+  - eexists. split; [vm_compute; reflexivity|]. vm_compute. reflexivity.
+Qed.
